@@ -11,7 +11,11 @@
 (*           <stem>.eep.hex next to the source): exists, differs from      *)
 (*           before, its lexed records                                     *)
 (*       flash_writable, eep_writable,      whether that location can be   *)
-(*           written at all (a fact of the scenario)                       *)
+(*           written at all (a fact of the scenario): not when the parent  *)
+(*           is missing, it is a directory or a full device - and, for the *)
+(*           EEPROM image, not when it is the file the flash image goes to *)
+(*           under any name (the same path, a symbolic link, a hard link): *)
+(*           one file cannot hold both images                              *)
 (*       others_changed, exit, printed,                                    *)
 (*       report_ok]   the memory figures printed with -v equal those of    *)
 (*           the library's result (TRUE when nothing of the kind is shown) *)
